@@ -12,7 +12,16 @@ def cap(E, s):
 
 
 def sub(s, a, ln, is_str=None, capv=None):
-    return Str(s.base, s.off + a, ln, s.is_str if is_str is None else is_str, s.cap if capv is None else capv, s.cbytes)
+    return Str(s.base, s.off + a, ln, s.is_str if is_str is None else is_str, s.cap if capv is None else capv, s.cbytes, s.abs_cap)
+
+
+def positions(E, s):
+    """[(guard, byte, relative index term)] over the bytes of s.  Windows at a symbolic offset of a zero-based buffer are
+    enumerated by absolute buffer position so that every array read has a constant index."""
+    if z3.is_bv_value(s.off) or s.abs_cap is None:
+        return [(in_window(j, s), s.at(j), bv(j)) for j in range(cap(E, s))]
+    end = s.off + s.ln
+    return [(z3.And(z3.ULE(s.off, bv(k)), z3.ULT(bv(k), end)), z3.Select(s.base, bv(k)), bv(k) - s.off) for k in range(s.abs_cap)]
 
 
 def _concrete_bools(terms):
@@ -72,7 +81,7 @@ def match_at(E, s, i, p):
     return z3.And(z3.ULE(i + p.ln, s.ln), z3.ULE(i, s.ln), *[z3.Implies(in_window(j, p), s.at(i + j) == p.at(j)) for j in range(n)])
 
 
-def find_pred(E, s, pred_at, name='idx', width=None, upto_len=False):
+def find_pred(E, s, pred_at, name='idx', width=None, upto_len=False, byte_pred=None):
     """first index i < len with pred_at(i) (i <= len when upto_len).  The index is a fresh variable r whose
     *total, functional* definition (r = least hit, r = len+? when none) is asserted as a global axiom (E.axioms), never
     inside a path condition, so path sets stay closed under negation.  returns [(cond, Option<usize>)]"""
@@ -86,8 +95,12 @@ def find_pred(E, s, pred_at, name='idx', width=None, upto_len=False):
     none_val = s.ln + 1 if upto_len else s.ln
     in_r = z3.ULE(r, s.ln) if upto_len else z3.ULT(r, s.ln)
     ax = [z3.ULE(r, none_val), z3.Implies(in_r, pred_at(r))]
-    for j in range(n):
-        ax.append(z3.Implies(z3.ULT(bv(j), r), z3.Not(hits[j])))
+    if byte_pred is not None and not upto_len and not z3.is_bv_value(s.off) and s.abs_cap is not None:
+        for k in range(s.abs_cap):
+            ax.append(z3.Implies(z3.And(z3.ULE(s.off, bv(k)), z3.ULT(bv(k), s.off + r)), z3.Not(byte_pred(z3.Select(s.base, bv(k))))))
+    else:
+        for j in range(n):
+            ax.append(z3.Implies(z3.ULT(bv(j), r), z3.Not(hits[j])))
     E.axioms.append(z3.And(*ax))
     return [(in_r, some(I(r, 64))), (z3.Not(in_r), NONE)]
 
@@ -479,13 +492,16 @@ def register(E):
                 if sb is None: raise Inconclusive('strip_suffix non-ASCII pattern')
                 c0 = z3.And(z3.UGE(s.ln, 1), sb(s.at(s.ln - 1))); ln = bv(1)
             return [(c0, some(sub(s, bv(0), s.ln - ln))), (z3.Not(c0), NONE)]
+        sbp = single_byte_pred(E, st, kind, p)
         if op == 'contains':
+            if sbp is not None:
+                return [(T, z3.Or(*[z3.And(gd, sbp(b)) for gd, b, _ in positions(E, s)]) if n else FALSE)]
             return [(T, z3.Or(*[z3.And(z3.ULE(bv(j), s.ln), f(bv(j))[0]) for j in range(n + 1)]))]
         if op == 'find':
             if kind == 'str':
                 # empty pattern matches at 0; general: first j with match_at
                 return find_pred_incl_end(E, s, lambda i: f(i)[0])
-            return find_pred(E, s, lambda i: f(i)[0])
+            return find_pred(E, s, lambda i: f(i)[0], byte_pred=sbp)
         if op == 'rfind':
             return rfind_pred(E, s, lambda i: f(i)[0])
         if op in ('split_once', 'rsplit_once'):
@@ -580,7 +596,8 @@ def register(E):
     @model(r'^core::slice::<impl \[u8\]>::contains$')
     def _(E, st, callee, a, m):
         s, x = as_str(st, a[0]), d(st, a[1])
-        return [(T, z3.Or(*[z3.And(in_window(j, s), s.at(j) == x.v) for j in range(cap(E, s))]))]
+        ps = positions(E, s)
+        return [(T, z3.Or(*[z3.And(gd, b == x.v) for gd, b, _ in ps]) if ps else FALSE)]
 
     @model(r'^core::slice::<impl \[u8\]>::(starts_with|ends_with)$')
     def _(E, st, callee, a, m):
@@ -616,7 +633,7 @@ def register(E):
             if is_chars:
                 terms = chars_pred_terms(E, s, pred)
             else:
-                terms = [(in_window(j, s), pred(s.at(j))) for j in range(n)]
+                terms = [(gd, pred(b)) for gd, b, _ in positions(E, s)]
             if op == 'any': return [(T, z3.Or(*[z3.And(i, p) for i, p in terms]) if terms else FALSE)]
             if op == 'all': return [(T, z3.And(*[z3.Implies(i, p) for i, p in terms]) if terms else T)]
             if op == 'position' and not is_chars:
